@@ -319,7 +319,7 @@ def c13_jobs(tier, seed):
         Job('h_conc', 'plain', wraps=W, tag='conc-controlled', args=['--mode', 'controlled', '--cases', '448' if t else '224', '--budget', '20000' if t else '3000']),
         Job('h_conc', 'plain', wraps=W, tag='conc-stress', args=['--mode', 'stress', '--cases', '4480' if t else '560']),
         Job('h_conc', 'tsan', wraps=W, tag='conc-tsan', shards=8, args=['--mode', 'stress', '--cases', '1120' if t else '168']),
-        Job('h_conc', 'rel', wraps=W, tag='conc-stress-rel', args=['--mode', 'stress', '--cases', '2240' if t else '280']),
+        Job('h_conc', 'rel', wraps=W, tag='conc-stress-rel', shards=8, args=['--mode', 'stress', '--cases', '2240' if t else '140']),
     ]
 
 
